@@ -312,6 +312,16 @@ fn response_bytes(id: i64, app: u8, typ: &str, tok: i64, rng: &mut StdRng) -> Ve
     ber::message(id, op, ctrls)
 }
 
+/// length of the content of the outermost element of `b` (definite lengths)
+fn el_content_len(b: &[u8]) -> usize {
+    if b[1] < 0x80 {
+        b[1] as usize
+    } else {
+        let k = (b[1] & 0x7f) as usize;
+        b[2..2 + k].iter().fold(0usize, |a, x| a * 256 + *x as usize)
+    }
+}
+
 fn push_chunked(io: &MockIo, bytes: &[u8], rng: &mut StdRng) {
     if bytes.is_empty() {
         return; // an empty read would be an end of file
@@ -472,6 +482,30 @@ fn run_scenario(seed: u64, prof: &Profile, out: &mut Vec<String>, rep: &mut Repo
                     emit(format!("\"ev\":\"SrvOrphan\",\"id\":{},\"typ\":\"{}\",\"tok\":{}", id, typ, tok));
                     push_chunked(&io, &bytes, &mut rng);
                 }
+            } else if choice < 82 && prof.orphans && net_up && !faulted && !pending.is_empty() && rng.gen_bool(0.25) {
+                // a response whose message ID is not a MessageID at all (above 2^31-1, here 2^32+id or 2^64+id) but whose
+                // low bits equal the ID of an operation that is waiting: it must reach nobody. It is not a well-formed
+                // LDAPMessage envelope, so for the model it is an undecodable frame.
+                let p = pending[rng.gen_range(0..pending.len())].clone();
+                tok += 1;
+                let good = response_bytes(p.id, p.app, if p.app == 3 { "ent" } else { "res" }, tok, &mut rng);
+                // re-encode the envelope with a long message ID
+                let (el, _) = ber::decode(&good).unwrap();
+                let rest: Vec<u8> = {
+                    let (msgs, _) = ber::split_messages(&good[good.len() - el_content_len(&good)..]);
+                    msgs.iter().skip(1).flat_map(|m| m.1.clone()).collect()
+                };
+                let mut idoct = if rng.gen_bool(0.5) { vec![1u8, 0, 0, 0, 0] } else { vec![1u8, 0, 0, 0, 0, 0, 0, 0, 0] };
+                let n = idoct.len();
+                let low = (p.id as u32).to_be_bytes();
+                idoct[n - 4..].copy_from_slice(&low);
+                let bytes = ber::tlv(0x30, &ber::cat(&[ber::tlv(2, &idoct), rest]));
+                let _ = el;
+                emit(format!("\"ev\":\"SrvGarbage\",\"alias\":{},\"tok\":{}", p.id, tok));
+                push_chunked(&io, &bytes, &mut rng);
+                io.push(Item::Eof);
+                net_up = false;
+                faulted = true;
             } else if choice < 84 && prof.faults && net_up && !faulted {
                 net_up = false;
                 faulted = true;
